@@ -220,6 +220,7 @@ func (wg *WaitGroup) VrtEnabled(kind vrt.OpKind, t *vrt.Thread) bool {
 
 // Add, Done and Wait are thin instrumented wrappers so that the race detector's call stack shows the
 // caller when the modelled reads/writes of the semaphore word (Add concurrent with Wait) are reported.
+//
 //go:noinline
 func (wg *WaitGroup) Add(delta int) { wg.add(delta) }
 
